@@ -13,14 +13,16 @@
 //!     either hangs the run (harness: HANG) or is found an hour late;
 //!   * nobody hangs (harness).
 //!
-//! MAYV_MODE=starve (replay of model witness `global_queue_starves`, NOT part of the check): one worker; coroutine A
-//! polls a flag with `yield_now()`; then coroutine B, which sets the flag, is spawned from a thread (global queue of the
-//! only worker).  The worker never leaves `'work: loop { local.pop() ... }` of run_queued_tasks.
+//! MAYV_MODE=starve (the schedule of model witness `global_queue_starves`; finding F34, repaired by e723520): one worker;
+//! coroutine A polls a flag with `yield_now()`; then coroutine B, which sets the flag, is spawned from a thread (global queue
+//! of the only worker).  Before the fix the worker never left `'work: loop { local.pop() ... }` of run_queued_tasks and B
+//! never ran; now B runs after GLOBAL_INTERVAL polls of A.  Oracle: B runs within 2 s of virtual time (STARVED otherwise).
 //!
-//! MAYV_MODE=iotimer (replay of model witness `timer_state`, NOT part of the check): one worker; coroutine B blocks in a
-//! UDP recv with a long read timeout (keeps an I/O timer pending); coroutine A's recv times out after 5 ms, the timeout
-//! handler (schedule_timer, after run_queued_tasks) resumes it, it calls `yield_now()` (local push) and notes when it runs
-//! again.
+//! MAYV_MODE=iotimer (the schedule of model witness `timer_state`; finding F34): one worker; coroutine B blocks in a UDP
+//! recv with a long read timeout (keeps an I/O timer pending); coroutine A's recv times out after 5 ms, the timeout handler
+//! (schedule_timer, after run_queued_tasks) resumes it, it calls `yield_now()` (local push) and notes when it runs again.
+//! Before the fix that was when B's timer fired (10 s); now at once (select returns Some(0) while the local queue is not
+//! empty).  Oracle: A runs again within 1 s of virtual time (LATE otherwise).
 use mayv::*;
 use std::sync::atomic::{AtomicBool, AtomicU32, AtomicU64, Ordering::SeqCst};
 use std::sync::Arc;
@@ -216,7 +218,7 @@ fn spawner(sh: &Arc<Sh>, r: &mut Rng, rounds: u64, per: u64) {
     }
 }
 
-/// model witness `global_queue_starves` on the real code
+/// the schedule of model witness `global_queue_starves` on the real code
 fn mode_starve(ctx: &Ctx) {
     let flag = Arc::new(AtomicBool::new(false));
     let started = Arc::new(AtomicBool::new(false));
@@ -258,7 +260,7 @@ fn mode_starve(ctx: &Ctx) {
     println!("B ran and A finished at t={} (polls {})", ctx.now(), polls.load(SeqCst));
 }
 
-/// model witness `timer_state` on the real code
+/// the schedule of model witness `timer_state` on the real code
 fn mode_iotimer(ctx: &Ctx) {
     let long = envn("MAYV_LONG", 10_000_000_000);
     let resumed_after = Arc::new(AtomicU64::new(0));
